@@ -1,4 +1,47 @@
-import DnsModel.Threads
-import DnsModel.Steps
+/-
+  C17 — Results depend only on the arguments, never on earlier or concurrent calls.
+  In the model, `parse`, `uncompress`, `compress`, `renameWithRawNames` and `synth` are Lean functions,
+  so their purity is definitional; what could break it in the code — a suffix dictionary or scratch
+  buffer that survives a call, a process-wide cache — has no counterpart here: the dictionary is
+  created inside `compress` / `renameWithRawNames` (`({}, hdr)`), and the only randomness of the
+  library, the id of `ParsedPacket::empty()`, is a parameter (`PP.empty tid`).
+  The statement below fixes that reading: a session threads an explicit ambient state through the
+  calls, and that state is the unit type. The substance of C17 is the history-based correspondence
+  (alone / back to back / concurrent), see DESIGN.md §6 C17.
+-/
+import DnsModel.Renamer
+import DnsModel.Synth
 namespace Dns.C17
+open Dns
+
+inductive Call
+  | parse (p : Bytes) | uncompress (p : Bytes) | compress (p : Bytes)
+  | rename (p t s : Bytes) (sfx : Bool) | synth (txt : Bytes)
+
+inductive Out
+  | view (r : Res View) | bytes (r : Res Bytes)
+
+/-- one call, from a fresh state -/
+def run1 : Call → Out
+  | .parse p => .view (parse p)
+  | .uncompress p => .bytes (uncompress p)
+  | .compress p => .bytes (compress p)
+  | .rename p t s sfx => .bytes ((parsePP p).bind (fun pp => renameWithRawNames pp t s sfx))
+  | .synth t => .bytes (synth t)
+
+/-- the ambient state a call could read or leave behind: nothing -/
+abbrev Ambient := Unit
+
+def step (a : Ambient) (c : Call) : Ambient × Out := (a, run1 c)
+
+def runSession : Ambient → List Call → List Out
+  | _, [] => []
+  | a, c :: cs => (step a c).2 :: runSession (step a c).1 cs
+
+/-- every call of a session returns what it returns alone -/
+theorem session (calls : List Call) : runSession () calls = calls.map run1 := by
+  induction calls with
+  | nil => rfl
+  | cons c cs ih => simp [runSession, step, ih]
+
 end Dns.C17
